@@ -161,6 +161,10 @@ def write_xvg(path: str, es: dict, rows: list):
     lines += at
     for i, leg in enumerate(es["legends"]):
         lines.append(f'@ s{i} legend "{leg}"\n')
+    for i in range(es.get("n_at_after", 0)):
+        # xmgrace-style settings that some tools put behind the legend block
+        lines.append([f"@ s{i % max(1, len(es['legends']))} linestyle 1\n", "@ autoscale onread none\n",
+                      f"@ s{i % max(1, len(es['legends']))} line linewidth 2.0\n"][i % 3])
     style = es.get("line_style", "plain")
     for row in rows:
         toks = [t.strip() for t in row] if style != "plain" else row
@@ -381,7 +385,7 @@ def gen_grid_spec(rng: random.Random, max_cells: int, allow_f12: bool = True, ca
         if cartesian and canon_o in F12_OPEN_CELL_GRIDS and not allow_f12:
             continue
         return {"b": f"{b_alg}_{nb}" if (b_alg and nb > 1) else str(nb), "o": o_name, "t": t,
-                "factor": rng.choice([2, 2, 1, 0.5, 3.3]), "cartesian": cartesian,
+                "factor": rng.choice([2, 2, 1, 0.5, 3.3, 2, 1, 1e-6, 1e-3, 1e4]), "cartesian": cartesian,
                 "n_b": nb, "n_o": no, "n_t": nt, "canon_o": canon_o}
     raise HarnessError("could not draw a grid spec")
 
@@ -390,7 +394,7 @@ def lib_spec(spec: dict) -> dict:
     return {k: spec[k] for k in ("b", "o", "t", "factor", "cartesian")}
 
 
-LEGEND_POOL = ["LJ (SR)", "Disper. corr.", "Coulomb (SR)", "Potential", "Kinetic En.", "Total Energy", "Temperature",
+LEGEND_POOL = ["Unnamed: 0", "Unnamed-SOL:Coul-SR", "Coul-SR:SOL-SOL", "Coul-SR:Sol-Sol", "LJ (SR)", "Disper. corr.", "Coulomb (SR)", "Potential", "Kinetic En.", "Total Energy", "Temperature",
                "Pres. DC (bar)", "Pressure", "Constr. rmsd", "Coul. recip.", "Bond", "Angle @ 2", "# weird", "Énergie",
                "a  b", "(x)", "pot [kJ/mol]", "s1 legend", "LJ-14"]
 
@@ -412,6 +416,11 @@ def gen_energy_spec(rng: random.Random, sigma=None, fmt=None, simple: bool = Fal
             cand = gen_legend(rng)
             if cand not in legends and cand != "Time [ps]":
                 legends[i] = cand
+    if n_leg >= 2 and rng.random() < 0.1:
+        src = legends[0]
+        variant = src.swapcase() if src.swapcase() != src else src + "x"
+        if variant not in legends:
+            legends[1] = variant  # two legends that differ only in case
     if "Potential" not in legends and rng.random() < 0.7:
         legends[rng.randrange(n_leg)] = "Potential"
     column = "Potential" if "Potential" in legends else rng.choice(legends)
@@ -423,6 +432,7 @@ def gen_energy_spec(rng: random.Random, sigma=None, fmt=None, simple: bool = Fal
     return {"fmt": fmt or rng.choice(["xvg", "xvg", "csv"]), "legends": legends, "column": column, "n_hash": n_hash,
             "half_range": half_range, "whole_numbers": whole, "dup_frac": rng.choice([0, 0, 0, 0.1, 0.5]),
             "line_style": rng.choice(["plain", "plain", "plain", "trailing_blank", "tabs", "wide_gaps"]),
+            "n_at_after": rng.choice([0, 0, 0, 1, 3]),
             "n_at": rng.choice([10, 10, 0, 3, 14, rng.randint(0, 12)]), "sigma": sigma if sigma is not None else rng.choice([0.5, 1, 2, 3, 3, 5, 20]),
             "offset": rng.choice([0.0, -40.0, 12.5]), "seed": rng.randrange(2 ** 32),
             "numfmt": "gmx" if simple else rng.choice(["gmx", "gmx", "gmx_e", "repr", "g17"]),
@@ -524,7 +534,7 @@ class PipelineCheck(Check):
             if rng.random() < 0.5:
                 # same cell count, different geometry
                 stale = dict(spec)
-                stale["factor"] = {2: 1, 1: 3.3, 0.5: 2, 3.3: 0.5}[spec["factor"]]
+                stale["factor"] = {2: 1, 1: 3.3, 0.5: 2, 3.3: 0.5}.get(spec["factor"], 2)
                 stale["t"] = next((t for t in RADIAL_FORMS if t != spec["t"] and _nt(t) == spec["n_t"]), spec["t"])
             else:
                 stale = gen_grid_spec(rng, 200, allow_f12=False)
@@ -1064,7 +1074,7 @@ class PersistenceCheck(Check):
             if tw["n_o"] >= 4 and rng.random() < 0.6:
                 tw["cartesian"] = not tw["cartesian"]
             else:
-                tw["factor"] = {2: 3.3, 1: 2, 0.5: 1, 3.3: 0.5}[tw["factor"]]
+                tw["factor"] = {2: 3.3, 1: 2, 0.5: 1, 3.3: 0.5}.get(tw["factor"], 2)
             specs[1] = tw
         for si, sp in enumerate(specs):
             names = [n for n in GRID_FILES if not (sp.get("single") and n == "distances_array")]
@@ -1082,7 +1092,7 @@ class PersistenceCheck(Check):
             if rng.random() < 0.5 or si == len(specs) - 1:
                 ops.append({"op": "read", "mode": "cold" if rng.random() < (0.2 if tier == "quick" else 0.5) else "warm",
                             "hashseed": rng.randint(1, 2 ** 31)})
-        return {"kind": "gridfiles", "rng_init": rng.randrange(2 ** 32), "ops": ops}
+        return {"kind": "gridfiles", "rng_init": rng.randrange(2 ** 32), "bare_names": rng.random() < 0.15, "ops": ops}
 
     def _gen_energy(self, rng, tier):
         es = gen_energy_spec(rng, fmt="xvg")
@@ -1115,8 +1125,14 @@ class PersistenceCheck(Check):
         writes = 0
         compared = 0
         held = []  # (name, loaded object, digest at load time): what an earlier reader still holds
+        old_cwd = os.getcwd()
         with World(rng_init=sc.get("rng_init", 0xC0FFEE)) as world:
             d = world.make_scratch()
+            if sc.get("bare_names"):
+                # the stage runs inside the grid directory and passes bare file names
+                os.chdir(d)
+                d = ""
+                probes["bare_file_names_in_cwd"] = 1
             for step, op in enumerate(sc["ops"]):
                 if op["op"] == "write":
                     sp = op["spec"]
@@ -1174,6 +1190,7 @@ class PersistenceCheck(Check):
                                                              f"changed its content after later writes into the directory")
             if held and writes >= 2:
                 probes["held_values_rechecked_after_overwrite"] = 1
+            os.chdir(old_cwd)
         nontrivial = compared > 0 and (writes >= 2 or sum(faults.values()) >= 1)
         return {"events": log.n, "fingerprint": log.digest(), "faults": faults, "probes": probes, "sig": repr(sig),
                 "nontrivial": nontrivial, "inter": repr(sig)}
